@@ -441,8 +441,8 @@ class TU:
                 self.fn[f.name] = f
 
     def main_functions(self):
-        m = os.path.realpath(self.main)
-        return [f for f in self.functions if os.path.realpath(os.path.join(os.path.dirname(self.main), f.file) if not os.path.isabs(f.file) else f.file) == m]
+        m = relpath(self.main)
+        return [f for f in self.functions if relpath(f.file) == m]
 
     def global_(self, name):
         best = None
